@@ -233,6 +233,33 @@ def c16_translate3(t: T4, m: int, starts: int, finals: int) -> bool:
     return _translate_common("c16_translate3", 3, SLOTS3, t, m, starts, finals)
 
 
+# outputs whose symbols print alike when joined: ['x','y'] vs ['xy'], [1, 2] vs [12] vs ['1','2']
+CONFUSABLE = [(), ("x", "y"), ("xy",), ("x",), ("y",), (1, 2), (12,), ("1", "2")]
+OUT_SHAPES = [
+    # two or three parallel ways of reading the same input, ending in the same state
+    lambda o: ([("q0", "a", "q1", o[0]), ("q0", "a", "q1", o[1])], ["q0"], ["q1"]),
+    lambda o: ([("q0", "a", "q1", o[0]), ("q0", "a", "q0", o[1]), ("q1", "a", "q1", o[2])], ["q0"], ["q1"]),
+    lambda o: ([("q0", "a", "q1", o[0]), ("q1", "a", "q0", o[1]), ("q0", "a", "q0", o[2])], ["q0"], ["q0", "q1"]),
+]
+
+
+def c16_outputs(o0: int, o1: int, o2: int, shape: int) -> bool:
+    """
+    pre: pinned(shape=shape, o0=o0)
+    pre: ((0 <= o0) & (o0 < 8)) & ((0 <= o1) & (o1 < 8)) & ((0 <= o2) & (o2 < 8)) & ((0 <= shape) & (shape < 3))
+    pre: (shape != 0) | (o2 == 0)
+    post: _
+    """
+    raw = (o0, o1, o2, shape)
+    outs = [CONFUSABLE[enc.pick(x, 8)] for x in (o0, o1, o2)]
+    ctrans, cst, cfi = OUT_SHAPES[enc.pick(shape, 3)](outs)
+    # add_transition with the same (state, input, state) and two outputs is legitimate: two transitions
+    chx.enter("c16_outputs", raw)
+    fst = build_fst(ctrans, cst, cfi)
+    obs = _translations(fst, WORDS_AZ)
+    return chx.judge("C16", "c16_outputs", raw, (ctrans, cst, cfi), obs, _translate_oracle)
+
+
 # ----------------------------------------------------------------------------------------
 # (b) union / concatenate of two transducers sharing state names
 
@@ -680,6 +707,11 @@ ASSUME = ["transducers with an epsilon cycle that writes output are outside the 
 VALID = "inputs whose epsilon cycles write something are assumed away"
 
 CONDS = [
+    Cond("C16", c16_outputs, lambda tier: product_pins(shape=[0, 1, 2], o0=list(range(8))),
+         {"quick": "3 shapes with parallel ways of reading the same input x output words drawn from "
+                   "{[], [x,y], [xy], [x], [y], [1,2], [12], ['1','2']} (outputs that print alike when joined)",
+          "thorough": "same"},
+         F_TRANSLATE, "always"),
     Cond("C16", c16_to_fst, _shards_to_fst,
          {"quick": "EpsilonNFA with 2 states over {a} without epsilon self-loops (64 edge sets) x 5 mask classes; "
                    "NFA / DFA with 2 states over {a} (16 edge sets, valid ones) x 9 non-empty masks; words <=2 over {a,z}",
